@@ -21,6 +21,13 @@ def take(x):
     return 1
 
 
+def warn_item(d, l):
+    import warnings
+
+    warnings.warn("old spelling used", UserWarning)
+    return d
+
+
 def ret(x):
     return x
 
@@ -219,6 +226,19 @@ def main():
             o = ["exc", type(e).__name__]
         R.append([name] + o + [tw.COUNTER["n"] - n0, ("fin:" + name) in tw.EVENTS])
     R.append(["program-random-stream", "ok", repr(random.random()), 0, True])
+    # the program's own warnings: the same warning from one location is shown once (default action); the registry that remembers it
+    # is the interpreter's global warnings state, which a tracer must leave alone
+    import warnings
+
+    shown = []
+    orig_show = warnings.showwarning
+    warnings.showwarning = lambda *a, **kw: shown.append(str(a[0]))
+    try:
+        for i in range(4):
+            warn_item({"wa": i, "wb": "x"}, [i])
+    finally:
+        warnings.showwarning = orig_show
+    R.append(["program-warnings-shown", "ok", str(len(shown)), 0, True])
     print("done", len(R), tw.COUNTER["n"])
     return R
 ''')
@@ -276,6 +296,11 @@ def judge(res, un, tr, spec, wit):
         cu, ct = un["stdout"].split(), tr["stdout"].split()
         if not (surplus_labels and cu[:2] == ct[:2]):
             bad.append(("stdout-differs", f"untraced {un['stdout']!r:.80} traced {tr['stdout']!r:.80}"))
+    gu, gtr = un.get("global_state") or {}, tr.get("global_state") or {}
+    for key in sorted(set(gu) | set(gtr)):
+        res.count("global_state_judgements")
+        if gu.get(key) != gtr.get(key):
+            bad.append((f"interpreter-state-differs:{key}", f"after the block {key} is {str(gtr.get(key))[:120]} (untraced run: {str(gu.get(key))[:120]})"))
     if un.get("escaped"):
         bad.append(("harness:untraced-run-raised", un["escaped"]))
     if tr.get("escaped"):
